@@ -52,6 +52,8 @@ class SlowSource(AudioSource):
         return self._open
 
     def open(self):
+        if self.sched is not None:
+            self.sched.yield_point("src-open")  # a stop may arrive while the source is being opened
         self._open = True
         if self.inner is not None:
             self.inner.open()
@@ -203,10 +205,14 @@ def _build(out, case, d, sched, jitter, endless):
     out.ignore_files = {getattr(src, "input_path", None)}
     if case.get("saver"):
         ext = case["saver"].get("ext", ".wav")
-        out.saver_path = os.path.join(d, "stream" + ext)
+        # (names are unique per run: a saver object of an earlier run may be finalised late, and its
+        # __del__ removes its temporary file by the - possibly relative - name it was given)
+        stem = f"stream{_ctr[0]}"
+        out.saver_path = os.path.join(d, stem + ext)
+        out.saver_arg = (stem + ext) if case.get("relative") else out.saver_path
         out.saver_ext = ext
         out.ignore_files |= {out.saver_path, out.saver_path + ".wav"}
-        saver = W.StreamSaverWorker(reader, out.saver_path, cache_size_sec=case["saver"]["cache"])
+        saver = W.StreamSaverWorker(reader, out.saver_arg, cache_size_sec=case["saver"]["cache"])
         top = saver
         out.wf_calls = []
         _orig_wf = saver._wfp.writeframes
@@ -231,7 +237,7 @@ def _build(out, case, d, sched, jitter, endless):
             out.printer = o
         elif kind == "regsave":
             out.tmpl = os.path.join(d, case.get("tmpl", "det_{id}") + "." + case.get("ext", "wav"))
-            o = W.RegionSaverWorker(out.tmpl)
+            o = W.RegionSaverWorker(os.path.basename(out.tmpl) if case.get("relative") else out.tmpl)
             out.regsave = o
         elif kind == "player":
             out.player = FakePlayer(sched)
@@ -248,16 +254,27 @@ def _build(out, case, d, sched, jitter, endless):
             k, frac = case.get("join_sil", [0, 0])
             out.join_sil = (k + frac) / sr
             jext = case.get("joiner_ext", ".wav")
-            out.joiner_path = os.path.join(d, "joined" + jext)
+            jstem = f"joined{_ctr[0]}"
+            out.joiner_path = os.path.join(d, jstem + jext)
             out.joiner_ext = jext
             out.ignore_files |= {out.joiner_path, out.joiner_path + ".wav"}
-            o = W.AudioEventsJoinerWorker(out.join_sil, out.joiner_path, None, sr, sw, ch)
+            o = W.AudioEventsJoinerWorker(out.join_sil, (jstem + jext) if case.get("relative") else out.joiner_path,
+                                          None, sr, sw, ch)
             out.joiner = o
         else:
             raise HarnessError(kind)
         observers.append(o)
-    tokenizer = W.TokenizerWorker(proxy, observers, energy_threshold=thr, use_channel=rec.get("uc"),
-                                  **split_kwargs(case))
+    tkw = {}
+    spell = case.get("tok_spell") or {}
+    if spell.get("validator"):
+        # the activity decision handed over as a validator object, under either name
+        from auditok.util import AudioEnergyValidator
+
+        tkw[spell["validator"]] = AudioEnergyValidator(thr, sw, ch, use_channel=rec.get("uc"))
+    else:
+        tkw[spell.get("eth", "energy_threshold")] = thr
+        tkw[spell.get("uc", "use_channel")] = rec.get("uc")
+    tokenizer = W.TokenizerWorker(proxy, observers, **tkw, **split_kwargs(case))
     out.tokenizer = tokenizer
     out.observers = observers
     out.workers = ([saver] if saver else []) + observers + [tokenizer]
@@ -265,7 +282,8 @@ def _build(out, case, d, sched, jitter, endless):
 
 
 def _start(out, case):
-    if out.saver is not None:
+    late_saver = out.saver is not None and case.get("saver_start") == "after_tokenizer"
+    if out.saver is not None and not late_saver:
         out.saver.start()
     order = case.get("start", "start_all")
     tokenizer, observers = out.tokenizer, out.observers
@@ -283,6 +301,8 @@ def _start(out, case):
             o.start()
     else:
         raise HarnessError(order)
+    if late_saver:
+        out.saver.start()  # blocks read meanwhile wait in the saver's inbox
 
 
 def twin_case(case):
@@ -310,7 +330,7 @@ def run_pipeline(case, scheduled=True, stop_step=None, jitter=None, endless=Fals
     if twin:
         nthreads += 3
         nblocks *= 2
-    limit = 50 * (nblocks + nblocks + nthreads) + 200 + (stop_step or 0 if scheduled else 0)
+    limit = 50 * (nblocks + nblocks + nthreads) + 200 + (stop_step or 0 if scheduled else 0) + len(case.get("choices", ()))
     sched = Sched(case.get("choices", ()), step_limit=limit) if scheduled else None
     out = Run()
     out.failure = None
@@ -321,8 +341,11 @@ def run_pipeline(case, scheduled=True, stop_step=None, jitter=None, endless=Fals
     old_stdout = sys.stdout
     workers = []
     cm = sched.installed() if scheduled else contextlib.nullcontext()
+    cwd0 = os.getcwd()
     try:
         with cm:
+            if case.get("relative"):
+                os.chdir(d)  # bare relative file names, as typed on a command line
             _build(out, case, d, sched, jitter, endless)
             src, tokenizer = out.src, out.tokenizer
             workers = list(out.workers)
@@ -344,6 +367,19 @@ def run_pipeline(case, scheduled=True, stop_step=None, jitter=None, endless=Fals
                 # than are open now (restored below)
                 old_lim = resource.getrlimit(resource.RLIMIT_NOFILE)
                 resource.setrlimit(resource.RLIMIT_NOFILE, (min(len(os.listdir("/proc/self/fd")) + 40, old_lim[0]), old_lim[1]))
+            import datetime as _dt
+
+            old_cwd, old_dt = os.getcwd(), W.datetime
+            if case.get("clock_us") is not None:
+                # the harness owns the clock the tokenizer worker stamps its detections with
+                us = case["clock_us"]
+
+                class _Clock(_dt.datetime):
+                    @classmethod
+                    def now(cls, tz=None):
+                        return cls(2026, 9, 27, 23, 59, 59, us)
+
+                W.datetime = _Clock
             try:
                 _start(out, case)
                 if twin:
@@ -380,6 +416,8 @@ def run_pipeline(case, scheduled=True, stop_step=None, jitter=None, endless=Fals
             finally:
                 sys.stdout = old_stdout
                 tempfile.tempdir = old_tmp
+                W.datetime = old_dt
+                os.chdir(old_cwd)
                 if old_lim is not None:
                     resource.setrlimit(resource.RLIMIT_NOFILE, old_lim)
             if scheduled:
@@ -387,6 +425,7 @@ def run_pipeline(case, scheduled=True, stop_step=None, jitter=None, endless=Fals
                 sched.finish()
     finally:
         sys.stdout = old_stdout
+        os.chdir(cwd0)
     # let every OS thread really end
     for w in workers:
         if w.ident is not None:
